@@ -251,6 +251,12 @@ func (r *runner) run(ctx context.Context, isStream bool, input any, opts ...Opti
 		if result != nil {
 			return result, nil
 		}
+
+		// The tasks computed from START are new tasks like those of any later step: a node
+		// configured as interrupt-before must not start before the run has been resumed.
+		if hit := getHitKey(nextTasks, r.interruptBeforeNodes); len(hit) > 0 {
+			return nil, r.handleInterrupt(ctx, hit, nil, nextTasks, cm.channels, isStream, isSubGraph, checkPointID)
+		}
 	} else {
 		ctx, input = onGraphStart(ctx, input, isStream)
 		haveOnStart = true
